@@ -18,6 +18,7 @@ RULE = ('cases = generated (taxonomy of 1-4 levels and 2-10 leaves, reference-ma
         '(n_up, n_down) in 0..2n+1, n = 1..3, beside a rich and a one-marker pair); every (parent, pair it must discriminate) is checked against the census; '
         'non-trivial = some processed parent has a pair with fewer query-available reference markers than twice its target and a pair '
         'with more; distinct = distinct spec hash')
+RULE += '; additions: parents that discriminate exactly 255 / 256 / 257 leaf pairs (60-600 genes, seeded sparse tensor)'
 ASSUMPTIONS = [
     'the reference-marker table has one row per alphabetised leaf pair (sorted leaf names, itertools.combinations order), as the '
     "library's own writer produces; gene names unique; the query shares >=1 gene with the reference (otherwise a documented error)",
